@@ -308,3 +308,27 @@ func TestW_deep(t *testing.T) {
 		t.Errorf("deep nesting crashed the process: %v\n%s", err, s)
 	}
 }
+
+func TestW_numberBool(t *testing.T) {
+	wantEval(t, d1, "", `number(true())`, float64(1))
+	wantEval(t, d1, "", `number(false())`, float64(0))
+	wantEval(t, d1, "", `true() + 1`, float64(2))
+}
+
+func TestW_numberToString(t *testing.T) {
+	wantEval(t, d1, "", `string(0.00001)`, "0.00001")
+	wantEval(t, d1, "", `string(1 div 3 div 100000)`, "0.0000033333333333333333")
+	wantEval(t, d1, "", `string(999999)`, "999999")
+	wantEval(t, d1, "", `string(0.5)`, "0.5")
+	wantEval(t, d1, "", `string(-0.0001)`, "-0.0001")
+}
+
+// Known finding (C08, not repaired): the lexical space of number() is that of
+// strconv.ParseFloat, not the XPath Number production. This test documents the
+// divergence; it FAILS on the current tree by design and is not part of any check.
+func TestKnown_numberLexical(t *testing.T) {
+	wantEval(t, d1, "", `number(' 12 ')`, float64(12))
+	wantEval(t, d1, "", `number('1e3')`, math.NaN())
+	wantEval(t, d1, "", `number('inf')`, math.NaN())
+	wantEval(t, d1, "", `number('0x10')`, math.NaN())
+}
